@@ -13,6 +13,7 @@ CONSTANTS
   Orgs = {0, 250}
   Fixed = TRUE
   ThrowErrors = FALSE
+  ThrowMaxPass = 3
   WithExtra = TRUE
   AllowIllFormed = FALSE
   Complete = TRUE
